@@ -21,7 +21,11 @@ pub enum Sub {
     /// real threads, Buffered
     RealBuffered { buffer: usize, k: usize, upstream: usize },
     /// child process: worker function panics at item j
-    Panic { t: usize, n: usize, j: usize, #[serde(default)] delay_ms: u64 },
+    /// `history`: what the process did before the failing pipe was built: 0 nothing, 1 an earlier
+    /// pipe consumed to its end, 2 an earlier pipe and then a panic hook installed by the
+    /// application, 3 an earlier pipe and then the crate's own train_bpe (which installs a
+    /// print-only hook), 4 train_bpe only
+    Panic { t: usize, n: usize, j: usize, #[serde(default)] delay_ms: u64, #[serde(default)] history: u8 },
 }
 
 #[derive(Debug, Clone, Serialize, Deserialize)]
@@ -241,6 +245,28 @@ pub fn child_panic_pipe(args: &[String]) -> i32 {
     let n: usize = args.get(1).and_then(|s| s.parse().ok()).unwrap_or(4);
     let j: usize = args.get(2).and_then(|s| s.parse().ok()).unwrap_or(0);
     let delay: u64 = args.get(3).and_then(|s| s.parse().ok()).unwrap_or(0);
+    let history: u8 = args.get(4).and_then(|s| s.parse().ok()).unwrap_or(0);
+    if matches!(history, 1 | 2 | 3) {
+        let id: text_utils::data::Pipeline<usize, usize> = Arc::new(|x| x + 1);
+        let got: Vec<usize> = (0..7usize).pipe(id, t.max(1) as u8).collect();
+        if got != (1..8usize).collect::<Vec<_>>() {
+            println!("earlier pipe gave {got:?}");
+            return 0;
+        }
+    }
+    if history == 2 {
+        std::panic::set_hook(Box::new(|info| eprintln!("application hook: {info}")));
+    }
+    if matches!(history, 3 | 4) {
+        let dir = super::common::work_dir();
+        let corpus = dir.join("c09-corpus.txt");
+        std::fs::write(&corpus, "ab ab abc\nbc ab\n").expect("write corpus");
+        let r = text_utils::tokenization::train_bpe(&[&corpus], 260, 0, &dir.join("c09.merges"), None, None, 2, false);
+        if r.is_err() {
+            println!("train_bpe failed: {r:?}");
+            return 0;
+        }
+    }
     let f: text_utils::data::Pipeline<usize, usize> = Arc::new(move |x| {
         if x == j {
             // the failing item may be slow: the other workers run ahead in the meantime
@@ -261,11 +287,11 @@ pub fn child_panic_pipe(args: &[String]) -> i32 {
     0
 }
 
-fn panic_child(t: usize, n: usize, j: usize, delay_ms: u64) -> Result<(), String> {
+fn panic_child(t: usize, n: usize, j: usize, delay_ms: u64, history: u8) -> Result<(), String> {
     let exe = std::env::current_exe().map_err(|e| e.to_string())?;
     for attempt in 0..2 {
         let mut child = Command::new(&exe)
-            .args(["child", "panic-pipe", &t.to_string(), &n.to_string(), &j.to_string(), &delay_ms.to_string()])
+            .args(["child", "panic-pipe", &t.to_string(), &n.to_string(), &j.to_string(), &delay_ms.to_string(), &history.to_string()])
             .stdin(Stdio::null())
             .stdout(Stdio::null())
             .stderr(Stdio::null())
@@ -283,14 +309,14 @@ fn panic_child(t: usize, n: usize, j: usize, delay_ms: u64) -> Result<(), String
         }
         match status {
             Some(st) if st.success() => {
-                return Err(format!("worker function panicked at item {j} (T={t}, n={n}, {delay_ms} ms into the item) but the process completed normally with exit status 0: the failure was swallowed and the consumer saw a truncated stream"));
+                return Err(format!("worker function panicked at item {j} (T={t}, n={n}, {delay_ms} ms into the item, history {history}) but the process completed normally with exit status 0: the failure was swallowed and the consumer saw a truncated stream"));
             }
             Some(_) => return Ok(()),
             None => {
                 let _ = child.kill();
                 let _ = child.wait();
                 if attempt == 1 {
-                    return Err(format!("worker function panicked at item {j} (T={t}, n={n}) but the process was still alive after 30 s (twice): the consumer is blocked forever"));
+                    return Err(format!("worker function panicked at item {j} (T={t}, n={n}, history {history}) but the process was still alive after 30 s (twice): the consumer is blocked forever"));
                 }
             }
         }
@@ -301,10 +327,10 @@ fn panic_child(t: usize, n: usize, j: usize, delay_ms: u64) -> Result<(), String
 impl Prop for C09 {
     type Case = Case;
     const ID: &'static str = "C09";
-    const RULE: &'static str = "(a) controlled schedules (C05 controller): T in 1..=4, consumer takes k in 0..=20 items of an upstream of k, k+1, 50 or 10^6 items, then only workers are scheduled until none can move (lookahead = pulled - consumed <= 4T+4), then the pipe is dropped and the workers are run to quiescence (all reach their exit point, still <= 4T+4 pulled); (b) the same with real threads for Pipe (T in 0..=4, chaos controller) and Buffered (buffer 0..=4, bound 2*buffer+4) with an upstream iterator that polices pulled - asked and pulls after the drop itself and whose Drop signals thread exit; (c) child processes in which the worker function panics at item j: the child must terminate. Non-trivial (a): at the drop >= 1 item is in the channel and >= 1 worker is between ticket and send. Distinct = distinct serialised case.";
+    const RULE: &'static str = "(a) controlled schedules (C05 controller): T in 1..=4, consumer takes k in 0..=20 items of an upstream of k, k+1, 50 or 10^6 items, then only workers are scheduled until none can move (lookahead = pulled - consumed <= 4T+4), then the pipe is dropped and the workers are run to quiescence (all reach their exit point, still <= 4T+4 pulled); (b) the same with real threads for Pipe (T in 0..=4, chaos controller) and Buffered (buffer 0..=4, bound 2*buffer+4) with an upstream iterator that polices pulled - asked and pulls after the drop itself and whose Drop signals thread exit; (c) child processes in which the worker function panics at item j, optionally after a history in the same process (an earlier pipe run to its end, a panic hook installed by the application, the crate's own train_bpe, which installs a print-only hook): the child must terminate with a non-zero status. Non-trivial (a): at the drop >= 1 item is in the channel and >= 1 worker is between ticket and send. Distinct = distinct serialised case.";
     const CLAIMS_TERMINATION: bool = true;
     const HANG_SECS: u64 = 45;
-    const ESSENTIAL: &'static [&'static str] = &["controlled", "real_pipe", "real_buffered", "panic_child", "panic_slow_near_end", "unbounded_upstream", "drop_at_0", "drop_with_full_channel"];
+    const ESSENTIAL: &'static [&'static str] = &["controlled", "real_pipe", "real_buffered", "panic_child", "panic_slow_near_end", "panic_after_foreign_hook", "unbounded_upstream", "drop_at_0", "drop_with_full_channel"];
 
     fn budget(tier: Tier) -> Budget {
         match tier {
@@ -319,7 +345,7 @@ impl Prop for C09 {
             .prop_flat_map(move |(t, k, choices)| up(k).prop_map(move |upstream| Sub::Controlled { t, k, upstream, choices: choices.clone() }));
         let real_pipe = (prop_oneof![10 => 0usize..=4, 1 => 5usize..=16], prop_oneof![10 => 0usize..=20, 1 => 21usize..=200], any::<u64>()).prop_flat_map(move |(t, k, chaos)| up(k).prop_map(move |upstream| Sub::RealPipe { t, k, upstream, chaos }));
         let real_buf = (prop_oneof![10 => 0usize..=4, 1 => 5usize..=64], prop_oneof![10 => 0usize..=20, 1 => 21usize..=200]).prop_flat_map(move |(buffer, k)| up(k).prop_map(move |upstream| Sub::RealBuffered { buffer, k, upstream }));
-        let panic = (prop_oneof![10 => 1usize..=4, 1 => 5usize..=8], prop_oneof![10 => 1usize..=12, 1 => 13usize..=60], prop_oneof![Just(0u64), Just(5u64), Just(40u64)]).prop_flat_map(|(t, n, delay_ms)| (0..n).prop_map(move |j| Sub::Panic { t, n, j, delay_ms }));
+        let panic = (prop_oneof![10 => 1usize..=4, 1 => 5usize..=8], prop_oneof![10 => 1usize..=12, 1 => 13usize..=60], prop_oneof![Just(0u64), Just(5u64), Just(40u64)], prop_oneof![3 => Just(0u8), 4 => 1u8..=4]).prop_flat_map(|(t, n, delay_ms, history)| (0..n).prop_map(move |j| Sub::Panic { t, n, j, delay_ms, history }));
         prop_oneof![20 => controlled, 5 => real_pipe, 5 => real_buf, 2 => panic]
             .prop_map(|sub| Case { sub })
             .boxed()
@@ -378,11 +404,12 @@ impl Prop for C09 {
                     Err(e) => out.fail(format!("Buffered({buffer}), drop after {k} of {upstream}: {e}")),
                 }
             }
-            Sub::Panic { t, n, j, delay_ms } => {
+            Sub::Panic { t, n, j, delay_ms, history } => {
                 out.label("panic_child");
+                out.label_if(*history >= 2, "panic_after_foreign_hook");
                 out.nontrivial = *t >= 2 && *j + 1 < *n;
                 out.label_if(*delay_ms > 0 && *j + *t > *n, "panic_slow_near_end");
-                if let Err(e) = panic_child(*t, *n, *j, *delay_ms) {
+                if let Err(e) = panic_child(*t, *n, *j, *delay_ms, *history) {
                     out.fail(e);
                 }
             }
